@@ -79,6 +79,7 @@ type CheckOpts struct {
 	Keep       bool
 	Verbose    bool
 	CheckerCmd string
+	NoEvidence bool // must-fail runs (selftest) do not overwrite the evidence files
 	Deps       bool // audit mode: also verify every in-repo callee whose contract the proofs apply (not used by registered checks)
 }
 
@@ -337,7 +338,7 @@ func (P *Program) Check(opt CheckOpts) int {
 	evDir := filepath.Join(opt.VerifDir, "evidence")
 	os.MkdirAll(evDir, 0o755)
 	data, _ := json.MarshalIndent(ev, "", " ")
-	if !opt.Deps {
+	if !opt.Deps && !opt.NoEvidence {
 		os.WriteFile(filepath.Join(evDir, prop+".json"), append(data, '\n'), 0o644)
 	} else {
 		for _, r := range results {
